@@ -6,7 +6,8 @@
 
    composed into serve_bytes : body -> served.  Links are numbered by MessageBytes.bstr_code, an
    injective function of the CID bytes, so nothing about the numbering is assumed.  The symbolic
-   signature (keys, valid, alg_of) and the server (its context, its handlers) are parameters. *)
+   signature (keys, valid, alg_of), the server (its context, its handlers) and the blocks its proof
+   resolver can supply beyond those of the request (extb) are parameters. *)
 From Ucanto Require Import Base Varint Ipld Cbor Formats Blockstore MessageFormat Cid Car BaseEnc DagJson Signing.
 From Ucanto Require Import MessageBytes TokenBytes.
 From Ucanto Require Import Pattern Time Validator ValidatorSpec ValidatorTerm Server ServerTotal EndToEnd TokenView.
@@ -50,6 +51,23 @@ Proof.
   apply in_map_iff. exists cb. auto.
 Qed.
 
+(* blocks of the request shadow further blocks with the same CID *)
+Lemma B_of_app_vis blocks ext l : In l (vis_of blocks) -> B_of (blocks ++ ext) l = B_of blocks l /\ B_of blocks l <> None.
+Proof.
+  unfold B_of, vis_of. induction blocks as [|[k v] blocks IH]; cbn [map In app find fst snd]; [intros []|].
+  intros [E|I].
+  - subst l. rewrite N.eqb_refl. split; [reflexivity|discriminate].
+  - destruct (lid k =? l); [split; [reflexivity|discriminate]|]. apply IH. exact I.
+Qed.
+
+Lemma B_of_app_in blocks ext c data :
+  NoDup (map fst blocks) -> In (c, data) blocks -> B_of (blocks ++ ext) (lid c) = Some data.
+Proof.
+  intros ND I.
+  assert (V : In (lid c) (vis_of blocks)) by (unfold vis_of; apply in_map_iff; exists (c, data); auto).
+  destruct (B_of_app_vis blocks ext (lid c) V) as [E _]. rewrite E. apply B_of_in; assumption.
+Qed.
+
 Section Serve.
   Variable mh_digest : N -> N -> bstr -> option bstr.
   Variable hdr_oracle : bstr -> option (list bstr * N).
@@ -58,11 +76,13 @@ Section Serve.
   Variable alg_of : N -> bstr.
   Variable fuel : nat.
   Variable srv : server.
+  Variable extb : list (bstr * bstr).       (* blocks the server's proof resolver can supply *)
   Notation decode := (decode_message mh_digest hdr_oracle).
 
-  (* the token store of a block list: every block, read as the accessors read it *)
+  (* the token store of a request: every block of the request (and of the resolver), read as the
+     accessors read it *)
   Definition U_of (blocks : list (bstr * bstr)) : link -> option token :=
-    store_of (B_of blocks) lid keys valid alg_of.
+    store_of (B_of (blocks ++ extb)) lid keys valid alg_of.
 
   Definition blocks_of (d : decoded) : list (bstr * bstr) := tbl_blocks (d_store d).
 
@@ -105,17 +125,17 @@ Section Serve.
 
   (* a bound on the number of proofs any block of the request cites *)
   Definition prf_bound (blocks : list (bstr * bstr)) : nat :=
-    S (fold_right (fun cb acc => Nat.max (length (t_prf (view_block lid keys valid alg_of (snd cb)))) acc) 0%nat blocks).
+    S (fold_right (fun cb acc => Nat.max (length (t_prf (view_block lid keys valid alg_of (snd cb)))) acc) 0%nat (blocks ++ extb)).
 
   Lemma prf_bound_pos blocks : (0 < prf_bound blocks)%nat.
   Proof. unfold prf_bound. lia. Qed.
 
   Lemma prf_bound_spec blocks l t : U_of blocks l = Some t -> (length (t_prf t) <= prf_bound blocks)%nat.
   Proof.
-    unfold U_of, store_of. destruct (B_of blocks l) as [data|] eqn:E; [|discriminate].
+    unfold U_of, store_of. destruct (B_of (blocks ++ extb) l) as [data|] eqn:E; [|discriminate].
     cbn [option_map]. intros H. inversion H; subst. clear H.
     apply B_of_some in E. destruct E as [c [I _]]. unfold prf_bound.
-    induction blocks as [|[k v] blocks IH]; [destruct I|]. cbn [fold_right snd]. destruct I as [E|I].
+    induction (blocks ++ extb) as [|[k v] bl IH]; [destruct I|]. cbn [fold_right snd]. destruct I as [E|I].
     - inversion E; subst. lia.
     - specialize (IH I). lia.
   Qed.
@@ -167,7 +187,7 @@ Section Serve.
       let U := U_of (blocks_of d) in
       let inv := mkDlg (lid cid) (vis_of (blocks_of d)) in
       P U (s_ctx srv) fuel (h_desc h) [inv] a /\
-      P_sg U (s_ctx srv) (sig_ok_bytes (B_of (blocks_of d)) lid keys valid alg_of) fuel (h_desc h) [inv] a.
+      P_sg U (s_ctx srv) (sig_ok_bytes (B_of (blocks_of d ++ extb)) lid keys valid alg_of) fuel (h_desc h) [inv] a.
   Proof.
     intros Hres H. apply serve_bytes_done in H. destruct H as [d [D E]]. exists d. split; [exact D|].
     intros k Hk. unfold serve_decoded in E. symmetry in E.
@@ -176,6 +196,7 @@ Section Serve.
     unfold exec_of in Hl. apply in_map_iff in Hl. destruct Hl as [cid [El Hcid]]. subst l.
     (* the invocation's token is the view of a block of the table *)
     unfold tok, U_of, store_of in Ht. cbn [d_link] in Ht.
+    destruct (B_of_app_vis (blocks_of d) extb (lid cid) Hv) as [EB _]. rewrite EB in Ht.
     destruct (B_of (blocks_of d) (lid cid)) as [data|] eqn:B; [|discriminate].
     cbn [option_map] in Ht. inversion Ht as [Ht']. clear Ht.
     apply B_of_some in B. destruct B as [c' [I Ec]]. apply lid_inj in Ec. subst c'.
@@ -263,17 +284,17 @@ Section Serve.
     (forall c t, In (c, t) toks ->
        U_of blocks (lid c) = Some (view_token lid keys valid alg_of (canon_token t))) /\
     U_of blocks (lid root) = Some empty_token /\
-    (forall l, ~ In l (vis_of blocks) -> U_of blocks l = None).
+    (forall l, ~ In l (vis_of (blocks ++ extb)) -> U_of blocks l = None).
   Proof.
     intros W B blocks ND HT. split; [|split].
     - intros c t I. destruct (HT c t I) as [Wt [Bt [Tt NF]]].
       unfold U_of, store_of.
-      rewrite (B_of_in blocks c (token_bytes t) ND).
+      rewrite (B_of_app_in blocks extb c (token_bytes t) ND).
       + cbn [option_map]. f_equal. apply view_block_bytes; assumption.
       + apply in_or_app. left. apply in_map_iff. exists (c, t). auto.
-    - unfold U_of, store_of. rewrite (B_of_in blocks root (message_bytes m) ND).
+    - unfold U_of, store_of. rewrite (B_of_app_in blocks extb root (message_bytes m) ND).
       + cbn [option_map]. f_equal. apply view_block_undecodable. apply message_not_a_token; assumption.
       + apply in_or_app. right. left. reflexivity.
-    - intros l NI. unfold U_of, store_of. rewrite (B_of_none blocks l NI). reflexivity.
+    - intros l NI. unfold U_of, store_of. rewrite (B_of_none (blocks ++ extb) l NI). reflexivity.
   Qed.
 End Serve.
